@@ -133,15 +133,30 @@ class C02(Prop):
             else:
                 # a document not written by the library: keys the reader has documented defaults for are absent
                 doc = F.doc_of_spec(spec, F.rr(["1.2", "1.1", "1.2", "2.0"]), keep_defaults=rng.random() < 0.3)
-                for d in doc["payload"]["images"].values():
-                    for c in d.values():
-                        for r in c:
-                            if rng.random() < 0.5:
-                                r.pop("format", None)                      # read as "iso"
-                            if rng.random() < 0.3:
-                                r.pop("unified", None); r.pop("additional_variants", None) if not r.get("unified") else None
-                            if rng.random() < 0.2:
-                                r["mtime"] = str(r["mtime"]); r["bootable"] = int(r["bootable"])     # coerced by the reader
+                recs = [r for d in doc["payload"]["images"].values() for c in d.values() for r in c]
+                saved = [dict() for _ in recs]
+                for r, sv in zip(recs, saved):
+                    if rng.random() < 0.5 and "format" in r:
+                        sv["format"] = r.pop("format")                                    # read as "iso"
+                    if rng.random() < 0.3 and not r.get("unified"):
+                        for k in ("unified", "additional_variants"):
+                            if k in r:
+                                sv[k] = r.pop(k)
+                    if rng.random() < 0.2:
+                        r["mtime"] = str(r["mtime"]); r["bootable"] = int(r["bootable"])     # coerced by the reader
+                # the quantifier is over manifests whose images are distinguishable (identity unique since 1.1): an absent key
+                # is read as its default, so records whose DEFAULTED identity would coincide with another image's (with other
+                # checksums) get their explicit keys back, until the document is as distinguishable as the spec was
+                while True:
+                    groups = {}
+                    for i, r in enumerate(recs):
+                        groups.setdefault(json.dumps(F.identity7(F.read_record(r)), sort_keys=True), []).append(i)
+                    clash = [i for g in groups.values() if len(set(json.dumps(recs[j].get("checksums"), sort_keys=True) for j in g)) > 1
+                             for i in g if saved[i]]
+                    if not clash:
+                        break
+                    for i in clash:
+                        recs[i].update(saved[i]); saved[i] = {}
                 yield {"op": "doc", "args": {"doc": doc}}
 
     # ------------------------------------------------------------------ real side
@@ -453,6 +468,6 @@ PROP = C02()
 
 MANIFEST = dict(
     technique="Lean 4 proof over an executable model of images.py (serialize / deserialize / add mirrored statement by statement, validators and version gates regenerated from the source) + byte-exact differential check of dumps/loads against the real library + round-trip oracle on the real library",
-    text="Theorem C02_readback_partial: for every manifest (any number of variants, arches, images per cell, objects filed in several cells) whose compose section and images validate (generated rule lists), whose cells are keyed by admissible arches, whose integer attributes are ints and which satisfies identity uniqueness, serialize succeeds, deserialize of the written document succeeds, and the manifest read holds exactly the same multiset of (variant, arch, 15-attribute record) filings (C02_cells per cell, C02_all overall), compose section in normal form (C02_compose_norm_id: identity when a label is set or final is False), current version; C02_cycle_closed: the result satisfies the hypotheses again. C02_image_roundtrip / C02_compose_roundtrip are the field-level statements. C02_fixpoint: with distinct paths inside every cell the re-read manifest is written to a document with the same canonical form, hence the same bytes (the image table is a function of the multiset of filings: toPy_canon_perm); C02_bytes: dumps -> loads -> dumps returns the identical text, with json.load o print = id as explicit hypothesis. C02_empty_cells_not_written / C02_document_of_filings: cells may be empty sets and variants may lack arches (images removed through the public containers); the writer emits a key exactly for variants / (variant, arch) pairs that have a filing and never an empty list, and the document depends on the manifest only through its filings. Hypotheses are necessary: C02_F11_witness, C02_bool_int_witness (decide).",
+    text="Theorem C02_readback_partial: for every manifest (any number of variants, arches, images per cell, objects filed in several cells) whose compose section and images validate (generated rule lists), whose cells are keyed by admissible arches, whose integer attributes are ints and which satisfies identity uniqueness, serialize succeeds, deserialize of the written document succeeds, and the manifest read holds exactly the same multiset of (variant, arch, 15-attribute record) filings (C02_cells per cell, C02_all overall), compose section in normal form (C02_compose_norm_id: identity when a label is set or final is False), current version; C02_cycle_closed: the result satisfies the hypotheses again. C02_image_roundtrip / C02_compose_roundtrip are the field-level statements. C02_fixpoint: with distinct paths inside every cell the re-read manifest is written to a document with the same canonical form, hence the same bytes (the image table is a function of the multiset of filings: toPy_canon_perm); C02_bytes: dumps -> loads -> dumps returns the identical text, with json.load o print = id as explicit hypothesis. C02_empty_cells_not_written / C02_document_of_filings: cells may be empty sets and variants may lack arches (images removed through the public containers); the writer emits a key exactly for variants / (variant, arch) pairs that have a filing and never an empty list, and the document depends on the manifest only through its filings. C02_reload_canon (Img.reload_canon): the reader does not depend on the key order of the written document - deserialize(doc) and deserialize(key-sorted doc) both succeed and give the same content (Img.Same); C02_bytes_parsed: dumps -> modelled CPython json parser -> loads -> dumps returns the identical text from hypotheses on the OBJECT only (validators pass, containers hold JSON values, integers within the digit limit), no hypothesis about the library model left. Hypotheses are necessary: C02_F11_witness, C02_bool_int_witness (decide).",
     note="JSON parser not modelled (document-level statement; parser exercised by every generated case). F11: a manifest with an identity collision built under a pre-1.1 header is written but refused on reload (known finding).",
     ref="7/C02")
